@@ -79,6 +79,7 @@ class Pat:
         self.is_bytes = isinstance(pattern, bytes)
         self.name = name
         self.tree = sp.parse(pattern, flags)
+        self.compiled = re.compile(pattern, flags)
         self.flags = self.tree.state.flags
         self.groupindex = dict(self.tree.state.groupdict)
 
@@ -100,6 +101,7 @@ class Env:
         self.extra_chars = set()
         self.final = False
         self.SORT = z3.StringSort()
+        self.markers = {}       # label -> one-symbol RegLan (symbols outside the subject alphabet)
 
     # ---- collection
     def add(self, pattern, flags=0, name=None):
@@ -236,27 +238,83 @@ class Env:
         self.finalize()
         return self.T(p, list(items), self.eps())
 
-    def T(self, p, items, K):
+    # ---- markers (capture lemmas): group boundaries become extra symbols, see marked_lang / erased_inverse
+    def marker(self, label):
+        if label not in self.markers:
+            sym = chr(0x2400 + len(self.markers))
+            self.markers[label] = (sym, z3.Re(z3.StringVal(sym)))
+        return self.markers[label][1]
+
+    def mstar(self):
+        return z3.Star(self._union([r for _s, r in self.markers.values()])) if self.markers else self.eps()
+
+    def marked_lang(self, p, groups, how="match"):
+        """like lang(), but every participating group in `groups` (names or numbers) is bracketed by its
+        two marker symbols: the set of (subject, group spans) over ALL ways the pattern can match.  What
+        re returns is one of them, so a claim that holds for every marked word holds for the spans re reports."""
+        self.finalize()
+        gids = {p.groupindex.get(g, g): g for g in groups}
+        mk = {"groups": {gid: (self.marker("<%s" % g), self.marker("%s>" % g)) for gid, g in gids.items()}, "shuffle": False}
+        K = self.eps() if how == "fullmatch" else self.sigma_star()
+        items = list(p.tree)
+        while items and _opname(items[0][0]) == "AT" and _opname(items[0][1]) in ("AT_BEGINNING", "AT_BEGINNING_STRING"):
+            items = items[1:]
+        if how == "search":
+            raise Unsupported("marked_lang under search")
+        return self.T(p, items, K, mk)
+
+    def erased_inverse(self, p):
+        """all words over subject symbols and markers whose marker-free projection fullmatches p
+        (call after every marker used in the query has been created)"""
+        self.finalize()
+        items = list(p.tree)
+        return self.T(p, items, self.mstar(), {"groups": {}, "shuffle": True})
+
+    def expected(self, parts):
+        """concatenation of fullmatch languages; a part ('name', pat) is bracketed by the markers of group `name`"""
+        out = []
+        for part in parts:
+            if isinstance(part, tuple):
+                g, pat = part
+                out += [self.marker("<%s" % g), self.lang(pat, "fullmatch"), self.marker("%s>" % g)]
+            else:
+                out.append(self.lang(part, "fullmatch"))
+        return out[0] if len(out) == 1 else z3.Concat(*out)
+
+    def T(self, p, items, K, mk=None):
         if not items:
             return K
         (op, av), rest = items[0], items[1:]
         nm = _opname(op)
+        shuffle = bool(mk and mk["shuffle"])
         if nm in _SINGLE:
             cls = self._re_of_set(self.set_index[(repr((op, av)), p.flags)])
-            return z3.Concat(cls, self.T(p, rest, K))
-        K2 = self.T(p, rest, K)
+            if shuffle:
+                cls = z3.Concat(self.mstar(), cls)
+            return z3.Concat(cls, self.T(p, rest, K, mk))
+        K2 = self.T(p, rest, K, mk)
         if nm == "SUBPATTERN":
             gid, add, dele, sub = av
             if add or dele:
                 raise Unsupported("inline flag group")
-            return self.T(p, list(sub), K2)
+            if mk and gid in mk["groups"]:
+                o, c = mk["groups"][gid]
+                return z3.Concat(o, self.T(p, list(sub), z3.Concat(c, K2), mk))
+            return self.T(p, list(sub), K2, mk)
         if nm == "BRANCH":
-            return self._union([self.T(p, list(alt), K2) for alt in av[1]])
+            return self._union([self.T(p, list(alt), K2, mk) for alt in av[1]])
         if nm in ("MAX_REPEAT", "MIN_REPEAT", "POSSESSIVE_REPEAT"):
             lo, hi, sub = av
+            if nm == "POSSESSIVE_REPEAT":
+                raise Unsupported("possessive repetition (its language is not the language of the plain repetition)")
             if _has_anchor(sub):
                 raise Unsupported("anchor inside a repetition")
-            inner = self.T(p, list(sub), self.eps())
+            if mk and mk["groups"] and _has_group(sub, set(mk["groups"])):
+                if hi != 1:
+                    raise Unsupported("marked group inside a repetition")
+                inner = self.T(p, list(sub), self.eps(), mk)
+            else:
+                inner = self.T(p, list(sub), self.eps(), {"groups": {}, "shuffle": True} if shuffle else None)
             if hi == C.MAXREPEAT:
                 if lo == 0:
                     r = z3.Star(inner)
@@ -271,14 +329,19 @@ class Env:
             return z3.Concat(r, K2)
         if nm == "AT":
             where = _opname(av)
+            ms = self.mstar() if mk else None
             if where == "AT_END":
                 if p.flags & re.MULTILINE:
+                    if mk:
+                        raise Unsupported("$ with MULTILINE in a marked translation")
                     endset = z3.Union(self.eps(), z3.Concat(self.nl(), self.sigma_star()))
+                elif mk:
+                    endset = z3.Concat(ms, z3.Option(z3.Concat(self.nl(), ms)))
                 else:
                     endset = z3.Union(self.eps(), self.nl())
                 return z3.Intersect(K2, endset)
             if where == "AT_END_STRING":
-                return z3.Intersect(K2, self.eps())
+                return z3.Intersect(K2, ms if mk else self.eps())
             raise Unsupported("anchor %s inside the pattern" % where)
         raise Unsupported("regex construct %s" % nm)
 
@@ -323,10 +386,73 @@ class Env:
             return bytes(c if isinstance(c, int) else ord(c) for c in out)
         return "".join(chr(c) if isinstance(c, int) else c for c in out)
 
+    def erase(self, w):
+        """drop the marker symbols of a witness"""
+        marks = {sym for sym, _r in self.markers.values()}
+        return "".join(ch for ch in w if ch not in marks)
+
     def representatives(self):
         """one real string per alphabet block (for bounded enumeration over the minterm alphabet)"""
         self.finalize()
         return [self.realize(self.rep[k]) for k in range(len(self.blocks))]
+
+
+class TranslationFault(Exception):
+    """the SMT language built for a pattern disagrees with CPython's re on a concrete subject: the checker
+    itself is wrong (no verdict may be derived from this run)"""
+
+
+def crosscheck(env, pats=None, how="match", groups=None, limit=3000, max_len=6):
+    """Guard of the translation itself (bounded, not part of any proof): all subjects up to the length that fits
+    `limit`, over one representative character per alphabet block, are run through the real compiled pattern and
+    through the SMT language (concrete membership is decided by z3's simplifier).  With `groups`, the spans that re
+    reports must be one of the bracketings of marked_lang.  Returns the number of subjects compared."""
+    import itertools
+    env.finalize()
+    reps = env.representatives()
+    syms = [env.rep[k] for k in range(len(env.blocks))]
+    n = 0
+    for p in (pats if pats is not None else env.pats):
+        fn = getattr(p.compiled, how)
+        L = env.lang(p, how)
+        gs = [g for g in (groups or {}).get(p.name, [])]
+        ML = env.marked_lang(p, gs, how) if gs else None
+        budget = limit
+        for ln in range(0, max_len + 1):
+            if len(reps) ** ln > budget:
+                break
+            budget -= len(reps) ** ln
+            for tup in itertools.product(range(len(reps)), repeat=ln):
+                if env.is_bytes:
+                    real = b"".join(reps[i] for i in tup)
+                else:
+                    real = "".join(reps[i] for i in tup)
+                sym = "".join(syms[i] for i in tup)
+                m = fn(real)
+                r = z3.simplify(z3.InRe(z3.StringVal(sym), L))
+                n += 1
+                if z3.is_true(r) != (m is not None) or not (z3.is_true(r) or z3.is_false(r)):
+                    raise TranslationFault("pattern %s, subject %r: re says %s, SMT language says %s"
+                                           % (p.name, real, m is not None, r))
+                if m and ML is not None:
+                    cuts = []
+                    for g in gs:
+                        a, b = m.span(g)
+                        if a >= 0:
+                            cuts.append((a, 0, env.markers["<%s" % g][0]))
+                            cuts.append((b, 1, env.markers["%s>" % g][0]))
+                    # nested / adjacent groups: closing markers of inner groups come first at equal positions only when
+                    # the group is non-empty; the patterns this is used for have no adjacent empty groups
+                    w, last = "", 0
+                    for pos, _k, mark in sorted(cuts, key=lambda c: (c[0], c[1] == 0 and 1 or 0)):
+                        w += sym[last:pos] + mark
+                        last = pos
+                    w += sym[last:]
+                    r = z3.simplify(z3.InRe(z3.StringVal(w), ML))
+                    if not z3.is_true(r):
+                        raise TranslationFault("pattern %s, subject %r: group spans of re are not in the marked language"
+                                               % (p.name, real))
+    return n
 
 
 def _has_anchor(items):
@@ -339,6 +465,18 @@ def _has_anchor(items):
         if nm in ("MAX_REPEAT", "MIN_REPEAT", "POSSESSIVE_REPEAT") and _has_anchor(av[2]):
             return True
         if nm == "BRANCH" and any(_has_anchor(a) for a in av[1]):
+            return True
+    return False
+
+
+def _has_group(items, gids):
+    for op, av in items:
+        nm = _opname(op)
+        if nm == "SUBPATTERN" and (av[0] in gids or _has_group(av[3], gids)):
+            return True
+        if nm in ("MAX_REPEAT", "MIN_REPEAT", "POSSESSIVE_REPEAT") and _has_group(av[2], gids):
+            return True
+        if nm == "BRANCH" and any(_has_group(a, gids) for a in av[1]):
             return True
     return False
 
